@@ -75,6 +75,8 @@ type EnvReader struct {
 	BytesOut    int
 	ErrReturned bool
 	AfterErr    int // Read calls after the terminal error was returned
+	Need        int // > 0: the consumer needs only D[:Need]; a Read call issued once that much was delivered is "late"
+	LateCalls   int // (on a live connection it would block waiting for data the consumer has no use for)
 
 	Ch     *mc.Chooser // per-call deviations for the first DevCalls calls (nil = none)
 	DevMax int
@@ -132,6 +134,9 @@ func (e *EnvReader) Read(p []byte) (int, error) {
 		e.Hook()
 	}
 	e.Calls++
+	if e.Need > 0 && e.pos >= e.Need && len(p) > 0 {
+		e.LateCalls++
+	}
 	if e.ErrReturned {
 		e.AfterErr++
 		if e.Cfg.AfterErr == 1 {
